@@ -2,6 +2,7 @@ import AffVerif.Judge.C16
 import AffVerif.Judge.C12
 import AffVerif.Judge.C13
 import AffVerif.Judge.C02
+import AffVerif.Judge.C17
 /-! The judge: reads one case per line on stdin, prints one verdict per line. -/
 open AV AV.Judge
 
@@ -13,6 +14,7 @@ def judgeLine (line : String) : String :=
     match kind with
     | "C16" => judgeC16
     | "C12" => judgeC12
+    | "C17" => judgeC17
     | "C02" => judgeC02
     | "PANIC" => do
       let k ← tok; let _ ← tok; let _ ← tok
